@@ -62,7 +62,7 @@ NameOfId(id) == LET sep == IndexOf(id, " - ") IN IF sep = 0 THEN id ELSE SubSeq(
 (* numbers, everything else byte-wise.  CharRank is supplied for the        *)
 (* characters the generators use in ids.                                    *)
 (***************************************************************************)
-CharOrder == " #-./0123456789ABCDEFGHIJKLMNOPQRSTUVWXYZ[]_abcdefghijklmnopqrstuvwxyz"
+CharOrder == " !\"#$%&'()*+,-./0123456789:;<=>?@ABCDEFGHIJKLMNOPQRSTUVWXYZ[\\]^_`abcdefghijklmnopqrstuvwxyz{|}~"
 CharRank(c) == IndexOf(CharOrder, c)
 
 \* tokens of an id: every non-digit character is a token, every maximal digit run is one token
